@@ -44,6 +44,10 @@ type Sched struct {
 	Stuck    string // non-empty when the watchdog fired
 	lastRun  *Thread
 	nextName string
+	// Coarse: spawn sites only announce the new goroutine and exit sites only retire the
+	// thread; neither parks. Combined with a Filter that lets only a few sites park, a step
+	// is then a whole handler execution instead of one atomic action.
+	Coarse bool
 }
 
 func New() *Sched {
@@ -69,6 +73,33 @@ func (s *Sched) Install() { verifhook.Install(s.yield) }
 func Uninstall()          { verifhook.Install(nil) }
 
 func (s *Sched) yield(site string, obj any) {
+	if s.Coarse {
+		if s.IsSpawn(site) {
+			s.mu.Lock()
+			s.running++
+			s.spawns++
+			s.mu.Unlock()
+			return
+		}
+		if s.IsExit(site) {
+			gid := curGid()
+			s.mu.Lock()
+			if t := s.byGid[gid]; t != nil {
+				t.Done = true
+				t.Site = site
+				delete(s.byGid, gid)
+				s.running--
+				if s.running == 0 {
+					select {
+					case s.idle <- struct{}{}:
+					default:
+					}
+				}
+			}
+			s.mu.Unlock()
+			return
+		}
+	}
 	if s.Filter != nil && !s.Filter(site, obj) {
 		return
 	}
@@ -204,3 +235,7 @@ func (s *Sched) Current() *Thread { return s.lastRun }
 
 // Yield lets harness-owned code (handlers, fake peers) mark a scheduling point itself.
 func (s *Sched) Yield(site string, obj any) { s.yield(site, obj) }
+
+// WaitIdle waits until every managed goroutine is parked (after an operation issued from an
+// unmanaged goroutine, e.g. the harness itself calling into the system under test).
+func (s *Sched) WaitIdle() bool { return s.waitIdle() }
